@@ -17,6 +17,11 @@ void pstl() {
   (void)galois::ParallelSTL::map_reduce(v.begin(), v.end(), [](int x) { return x * 2; }, std::plus<int>(), 0);
   std::vector<int> out(5000);
   (void)galois::ParallelSTL::partial_sum(v.begin(), v.end(), out.begin());
+  // element types wider than int and floating point: a fold whose accumulator is narrower than these must be visible
+  std::vector<uint64_t> v64(10), out64(10);
+  (void)galois::ParallelSTL::partial_sum(v64.begin(), v64.end(), out64.begin());
+  std::vector<double> vd(10), outd(10);
+  (void)galois::ParallelSTL::partial_sum(vd.begin(), vd.end(), outd.begin());
   std::vector<std::vector<int>> vv(10);
   galois::ParallelSTL::destroy(vv.data(), vv.data() + 10);
   galois::ParallelSTL::destroy(v.data(), v.data() + 10);
